@@ -203,7 +203,10 @@ def run_case(case):
             obs['item_text'] = G.cps(s[1])
             try:                                     # what the text denotes for python (used by the oracle only)
                 import ast
-                obs['denoted'] = G.tag(ast.literal_eval(s[1]))
+                import warnings
+                with warnings.catch_warnings():
+                    warnings.simplefilter('ignore')
+                    obs['denoted'] = G.tag(ast.literal_eval(s[1]))
             except Exception:
                 pass
             r = _try(lambda: client.setParameterFromString('m', 'p', s[1]))
@@ -452,16 +455,6 @@ def f_one_tuple(case, obs, f):
 def f_negzero(case, obs, f):
     return (f['class'] in ('text-changed', 'setparam-changed')
             and any(dd['t'] in ('float', 'scaled') and x == ['float', '-0'] for dd, x in _leaves(case['d'], obs['v'])))
-
-
-def _tagged_has(t, kinds):
-    if t[0] in kinds:
-        return True
-    if t[0] in ('list', 'tuple'):
-        return any(_tagged_has(x, kinds) for x in t[1])
-    if t[0] == 'dict':
-        return any(_tagged_has(x, kinds) for _, x in t[1])
-    return False
 
 
 def f_client_string_maxchars(case, obs, f):
